@@ -33,6 +33,10 @@ def run(repo: Repo, chk: Check):
     chk.guarded(rule_function_labels, repo, chk, "R05.d")
     chk.guarded(r05e, repo, chk)
     chk.guarded(r05f, repo, chk)
+    chk.rule("R05.g", "a stack kept by a pass while it compiles a construct (pushed in a handler, read as <stack>[-1] by break/continue or nested "
+                      "constructs) is popped on every path to the handler's return", floor=1)
+    from .shared import rule_stack_balance
+    chk.guarded(rule_stack_balance, repo, chk, "R05.g")
 
 
 # ---------------------------------------------------------------------- alphabet
@@ -373,6 +377,30 @@ def r05f(repo, chk):
             brk = [b for lp in ast.walk(fn) if isinstance(lp, ast.For) for b in ast.walk(lp) if isinstance(b, (ast.Break,)) and any(x is s for x in ast.walk(lp))]
             chk.judge("R05.f", "generate_code:remove_labels:every label is substituted in every line", ok and not brk,
                       f"the substitution runs inside loops over {loops}{' with a break' if brk else ''}: expected all lines x all labels", {"loops": loops}, where)
+            # no line is exempted from the substitution: the only tests around it are the search for the label itself
+            from .c15 import symbolic_path
+            line_vars = set()
+            p = s
+            while p is not None and p is not fn:
+                if isinstance(p, ast.For) and ("enumerate" in norm(p.iter) or listname and listname in norm(p.iter)):
+                    line_vars |= {n.id for n in ast.walk(p.target) if isinstance(n, ast.Name)}
+                p = getattr(p, "parent", None)
+            _env, conds = symbolic_path(fn, s)
+            for t_, pol in conds:
+                txt = norm(t_)
+                names = {n.id for n in ast.walk(t_) if isinstance(n, ast.Name)}
+                if isinstance(t_, ast.Call) and norm(t_.func) in ("re.search", "re.match", "re.fullmatch") or "re.search(" in txt and pol:
+                    continue
+                if isinstance(t_, ast.Compare) and len(t_.ops) == 1 and isinstance(t_.ops[0], ast.In) and pol and isinstance(t_.comparators[0], ast.Name) and t_.comparators[0].id in line_vars:
+                    continue    # 'label in line': a cheaper necessary condition of the search
+                if isinstance(t_, (ast.Name, ast.Attribute)) and txt.endswith("relative_numbers"):
+                    continue
+                if names & line_vars:
+                    chk.bad("R05.f", "generate_code:remove_labels:every label is substituted in every line",
+                            f"the substitution is skipped for lines with {txt[:100]}{'' if pol else ' is False'}: a label operand on such a line (the address loaded by "
+                            f"'move rX <label>' of a list loop) keeps its name although the label line is removed", {"guard": txt[:200]}, where)
+                else:
+                    raise AnalysisError(f"remove_labels: test around the substitution not understood: {txt[:80]}")
             # replacement is the mapped index
             rep = s.args[1] if len(s.args) > 1 else None
             okr = False
